@@ -94,7 +94,9 @@ def check_knn(case, ctx):
     coords = (lay(d[:, 0], dshape), lay(d[:, 1], dshape)) + ((np.zeros(dshape),) if case["extra"] else ())
     kn = vd.KNeighbors(k=k, reduction=REDS[case["reduction"]]) if (k, case["reduction"]) != (1, "mean") else vd.KNeighbors()
     P = lambda a: build.present(a, case.get("container"))  # noqa: E731
-    vals_arr = lay(vals, dshape, "int64" if case.get("int_data") and np.all(vals == np.round(vals)) else "float64")
+    if case.get("int_data"):
+        vals = np.round(vals)  # integer-valued data in an integer dtype: the mean of k of them is generally not an integer
+    vals_arr = lay(vals, dshape, "int64" if case.get("int_data") else "float64")
     kn.fit(tuple(P(c) for c in coords), P(vals_arr))
     qcoords = (P(lay(q[:, 0], qshape)), P(lay(q[:, 1], qshape)))
     pred = np.asarray(kn.predict(qcoords))
